@@ -50,8 +50,10 @@ class CallGraph:
                         if "const" in a and "fn" in a["const"]:
                             f = a["const"]["fn"]
                             n = f.get("resolved") or f["$fn"]
-                            es.add(n)  # a fn item handed to a callee is (conservatively) called by it
-                            self.addr_taken.add(n)
+                            # a fn item handed to a (generic) callee is called by it: an edge from here.  It is a zero-sized value of
+                            # its own type, statically dispatched - not a possible target of indirect calls elsewhere, which need a
+                            # fn POINTER (a reifying cast or a table of pointers: see _fn_consts / consts)
+                            es.add(n)
             # closures defined inside are reachable from their parent
             for c in prog.closures_of(b.name):
                 if prog.body(c).j.get("direct_parent") == b.name:
@@ -71,7 +73,8 @@ class CallGraph:
                 if "fn" in c:
                     n = c["fn"].get("resolved") or c["fn"]["$fn"]
                     es.add(n)
-                    self.addr_taken.add(n)
+                    if k == "cast":
+                        self.addr_taken.add(n)      # reified into a fn pointer
                 elif "val" in c:
                     self._fn_values(c["val"], es)
         for o in rv.get("ops", []):
